@@ -29,13 +29,15 @@ PROPS = {
     "C18": {
         "title": "The 1-D space index and the bounding-box sweeps are exact",
         "gen_modules": ["Bounds"],
-        "props_modules": ["C18"],
+        "props_modules": ["C18", "C18Space"],
         "corr_n": (20000, 400000),
         "search_n": (20000, 400000),
         "technique": "Lean 4 theorems (permutation of the specified pair list; query specs under a construction invariant) over hand models + exhaustive exact correspondence",
         "level_text": "sweep_self / sweep_against: Lean theorems that, for inputs sorted by min x, the model's output is a permutation of exactly the overlapping pairs "
                       "(each once), for every list of boxes over any linear order, with the overlap test being the definition regenerated from BoundingBox::overlaps "
-                      "and proved equivalent to closed-interval intersection. Space1D: executable model of from_data and the queries. "
+                      "and proved equivalent to closed-interval intersection. Space1D: fromData_inv proves, for every list of ranges with start <= end (any length; touching, nested, "
+                      "identical, zero-width), that the model of from_data produces sorted, disjoint, non-empty pieces whose handle lists are exactly the items containing each point; "
+                      "data_at_point / data_in_region (each item once) / regions_in_range / all_regions meet their specifications under that invariant. "
                       "Models are tied to the code by exhaustive exact correspondence (every collection of <=4 ranges on a 5-point grid, <=3 (quick) / <=4 (thorough) boxes, "
                       "incl. touching, nested, identical, zero-width) plus random collections up to 200 items.",
         "level_note": "The sweep and Space1D models are hand-written (loops with mutation are outside the translator's subset); their tie is the exact correspondence run. "
@@ -51,16 +53,19 @@ PROPS = {
 PROPS["C17"] = {
     "title": "Contour tracing returns exactly the boundary of the sampled shape",
     "gen_modules": ["Contour"],
+    "props_modules": ["C17", "C17Scan", "C17Trace", "C17All"],
     "corr_n": (20000, 400000),
     "search_n": (20000, 400000),
-    "technique": "Lean 4 theorems (decide over the whole 16-cell table, edge-id algebra, merged-run separation) over translated kernels + exhaustive exact correspondence of the scan and trace models",
+    "technique": "Lean 4 theorems for every bitmap (scan_spec, trace_loops, trace_contours_spec) over translated kernels and literal hand models + exhaustive exact correspondence of the models",
     "level_text": "The marching-squares table, corner-bit packing, edge numbering and its inverse are regenerated from the Rust source on every run and proved correct for the whole "
                   "(finite) cell domain and all positions: a cell connects exactly the sides whose corners differ, each once; neighbouring cells share edge ids; ids are injective; "
-                  "to_contour_coords inverts at_coordinates; merged runs are strictly separated. The scan iterator and the loop tracer are literal hand models, compared verbatim "
+                  "to_contour_coords inverts at_coordinates; merged runs are strictly separated. For EVERY bitmap (any size): scan_spec proves the iterator model yields exactly the mixed 2x2 cells "
+                  "with correct corner bits in scanline order (incl. sufficiency of the iteration bound), trace_loops / trace_contours_spec prove the tracer model never hits its panic sites and returns "
+                  "closed loops of cell-adjacent edges using every inside/outside edge exactly once. The scan iterator and the loop tracer are literal hand models, compared verbatim "
                   "(cells) and up to rotation/direction/order (loops) with the implementation on every bitmap up to 4x3/3x4 (quick) and 4x4, 5x4, 4x5 (thorough) plus random bitmaps to 64x64; "
                   "the driver also checks the implementation's cells against the mixed-cell specification and its loops against the set of boundary edges.",
-    "level_note": "Partial: that the iterator model yields exactly the mixed cells (scan_spec) and that the tracer uses every boundary edge once (trace_loops) are established for every bitmap "
-                  "in the exhaustive range and sampled beyond it, not yet as unbounded theorems. HashMap iteration order is canonicalised away. " + COMMON_NOTE,
+    "level_note": "The theorems are about the hand models of the iterator and tracer (loops with mutation and a HashMap are outside the translator's subset); the models are tied to the code "
+                  "by exhaustive correspondence. HashMap iteration order is abstracted (the theorem holds for any key order) and canonicalised away in the comparison. " + COMMON_NOTE,
     "rule": "exhaustive enumeration of all bitmaps of the listed sizes (with and without an empty border arise as sub-cases), then random bitmaps 1..64 x 1..64 of kinds "
             "full/empty/checkerboard/single pixel/noise/ring/blocks/noise with border. Non-trivial: neither empty nor full; distinct by size and bits.",
     "trusted_base": ["hand-written model Model/Contour.lean of the scan iterator and tracer (tied by exhaustive correspondence)"],
